@@ -1,5 +1,6 @@
 import PsiProofs.Helper.C06_Rounding
-import PsiProofs.C05
+import PsiProofs.Helper.C06_Deque
+import Mathlib.Data.Nat.Pairing
 /-!
 # C06 — end to end, every presented trial is recovered sample-exactly
 
@@ -18,7 +19,17 @@ Two ingredients (DESIGN §6 C06):
 2. `e2e_kept` / `e2e_cancelled` — the discrete composition, stated over an *abstract* queue:
    the hypotheses are exactly what the queue model's theorems (C02 `waveform_embedded`,
    `uncovered_zero`; C04 `pause_cancels_exactly`) must provide; the conclusions follow from the
-   C05 theorems.  Plugging a concrete queue model in is left to the integrator.
+   C05 theorems.
+
+3. `e2e_composed_*` — the same statements about the **concrete** composition
+   queue model ∘ playback device ∘ extractor model (`Helper/C06_Compose.lean`: `jrun`), for every
+   joint history of {pop n, pause m, pause(), resume m, resume(), acquire n with any batch of the
+   pending notifications}.  No hypothesis about an abstract queue is left: `Valid`, `hr`,
+   `hnorem`/`hend`, `hrem`/`hearly` and `Embedded` are all derived from the run.  What remains
+   explicit: the link `s = K − P` (built into `reqOf`, discharged by
+   `seconds_samples_roundtrip_binary64`), the property's side conditions read off the queue's own
+   log, and — with pauses — `NoReuse` (no two notified trials share `(start, key)`), which C05's
+   `Valid` demands; hence the suffix `_partial` there.  Without `pause(m)` it is automatic.
 -/
 namespace Psi.C06
 open Psi.Rounding Psi.Extract
@@ -150,6 +161,323 @@ example : ∃ e : Epoch Nat,
     ⟨[0, 7], [⟨1, 1, 3, 0⟩], [], false⟩ ⟨⟨1, 1, 3, 0⟩, [7, 8]⟩
     (by refine ⟨⟨by decide, by decide, by decide, by decide⟩, ⟨by decide, by decide, by decide, by decide⟩, trivial⟩)
     (by decide) (by decide) (by decide) (by unfold Embedded; decide)
+  exact ⟨e, h1, h4⟩
+
+/-! ## 3. composition with the concrete queue model -/
+
+open Psi.E2E Psi.Queue
+
+/-- **The link seconds ↔ samples, kept explicit.**  The start sample `reqOf` gives a request
+(`s = K0 + k − P`) is the integer the extractor's own expression `round((t0 − prestim)·fs)` computes
+from the `t0` the queue publishes for a trial notified at queue sample `k`, in the standard model of
+binary64 arithmetic: `seconds_samples_roundtrip_binary64` with `T·fs = K0`, `p·fs = P`. -/
+theorem reqOf_start_roundtrip {fl : ℝ → ℝ} (hfl : IsFl ((2 : ℝ) ^ (-53 : ℤ)) fl) (T fs p : ℝ) (c : Cfg)
+    (i : Info) (k : ℕ) (hk : i.k = (k : ℤ)) (hfs : 0 < fs) (hT : T * fs = c.K0) (hp : p * fs = c.P)
+    (hsmall : c.K0 + k + c.P ≤ 2 ^ 49) :
+    round (extractorArg fl T fs p k) = (reqOf c i).s := by
+  rw [seconds_samples_roundtrip_binary64 hfl T fs p k c.K0 c.P hfs hT hp hsmall]
+  simp only [reqOf, hk]
+
+/-- the dictionary key `(t0, key)` is an injective function of the start sample and the stimulus -/
+def EncInj (c : Cfg) : Prop := ∀ a b a' b', c.enc a b = c.enc a' b' → a = a' ∧ b = b'
+
+/-- no two notified trials (cancelled ones included) share start sample and stimulus: the
+extractor's dictionary keys are pairwise distinct over the whole history (C05's `Valid`) -/
+def NoReuse (added : List Info) : Prop := (added.map (fun i => (i.k, i.key))).Nodup
+
+theorem keysOK_of {c : Cfg} {added : List Info} (henc : EncInj c) (h : NoReuse added) : KeysOK c added := by
+  unfold KeysOK List.Nodup
+  unfold NoReuse List.Nodup at h
+  rw [List.pairwise_map] at h
+  rw [List.pairwise_map, List.pairwise_map]
+  refine h.imp ?_
+  intro a b hne he
+  obtain ⟨h1, h2⟩ := henc _ _ _ _ he
+  exact hne (by rw [h1, h2])
+
+/-- **Every notified trial is either still logged (kept) or was cancelled, never both**
+(C04 `removed_once`, through the invariant `Once` it is proved from). -/
+theorem kept_or_cancelled (c : Cfg) (evs : List Ev) (q0 : QState) (J : JState) (hstart : Start q0)
+    (hrun : jrun c evs (JState.init c q0) = .ok J) (henc : EncInj c) (hreuse : NoReuse J.q.added)
+    (hside : SideOK c J.q.added) (i : Info) (hi : i ∈ J.q.added) :
+    (i ∈ J.q.generated ∧ i.uid ∉ J.q.removed) ∨ (i.uid ∈ J.q.removed ∧ i ∉ J.q.generated) := by
+  have inv := JInv_run c evs (JInv_init c q0 hstart) hrun (fun _ => hside) (keysOK_of henc hreuse)
+  obtain ⟨_, _, hex, hiff⟩ := Once_nodup inv.q.once
+  have hlt : i.uid < J.q.added.length := by
+    have : i.uid ∈ J.q.added.map (·.uid) := List.mem_map.2 ⟨i, hi, rfl⟩
+    rw [inv.q.uid] at this
+    exact List.mem_range.1 this
+  rcases (hiff i.uid).1 hlt with h | h
+  · obtain ⟨g, hg, he⟩ := List.mem_map.1 h
+    have : g = i := uid_inj inv.q.uid (inv.q.emb.gensub g hg) hi he
+    subst this
+    exact Or.inl ⟨hg, fun hr => hex _ hr h⟩
+  · exact Or.inr ⟨h, fun hg => hex _ h (List.mem_map.2 ⟨i, hg, rfl⟩)⟩
+
+/-- **End to end over the concrete queue model, kept trial (histories with pauses).**
+Run the composed system over any joint history (`hrun`); let `i` be a trial the queue still
+logs at the end (not cancelled) whose `added` notification has been handed to the extractor
+(`hseen`) and whose epoch the acquired stream has reached (`hreached`).  Then exactly one epoch is
+delivered under its key; it carries the trial's own request; after the `P` pre-stimulus samples it
+is the stimulus waveform, sample for sample, and every later sample of the epoch is silence or a
+located sample of a trial that starts after the waveform (silence up to the next trial).
+Side conditions, read off the queue's own log: `len ≤ dur ≤ L − P` (`hside`).
+**Partial** only in `hreuse`: C05's theorems need pairwise distinct dictionary keys. -/
+theorem e2e_composed_kept_partial (c : Cfg) (evs : List Ev) (q0 : QState) (J : JState)
+    (hstart : Start q0) (hrun : jrun c evs (JState.init c q0) = .ok J) (henc : EncInj c)
+    (hreuse : NoReuse J.q.added) (hside : SideOK c J.q.added)
+    (i : Info) (hi : i ∈ J.q.generated) (hseen : Note.add i ∉ J.pend)
+    (hreached : (c.K0 : Int) + i.k - (c.P : Int) + (c.L : Int) ≤ (J.acq : Int)) :
+    ∃ e : Extract.Epoch Cell, (deliveries c.B J.eops (reqOf c i).key).flatten = [e] ∧
+      e.req = reqOf c i ∧ e.missed = false ∧ e.data.length = c.L ∧
+      (∀ j, j < i.len → e.data[c.P + j]? = some (Cell.W i.key j)) ∧
+      (∀ j, i.len ≤ j → c.P + j < c.L → e.data[c.P + j]? = some Cell.Z ∨
+        ∃ i' ∈ J.q.added, i.k + (i.len : Int) ≤ i'.k ∧ ∃ j' : Nat, j' < i'.len ∧
+          i'.k + (j' : Int) = i.k + (j : Int) ∧ e.data[c.P + j]? = some (Cell.W i'.key j')) := by
+  have hk := keysOK_of henc hreuse
+  have inv := JInv_run c evs (JInv_init c q0 hstart) hrun (fun _ => hside) hk
+  have hia := inv.q.emb.gensub i hi
+  obtain ⟨pre, opj, rest, heq, hr, hs0⟩ := locate c inv hk i hia hseen
+  have hsv : (reqOf c i).s = (c.K0 : Int) + i.k - (c.P : Int) := rfl
+  have hlv : (reqOf c i).len = c.L := rfl
+  have hacq : (reqOf c i).s.toNat + (reqOf c i).len ≤ J.acq := by rw [hlv]; omega
+  have hv : Valid c.B c.L (pre ++ (opj :: rest) ++ []) := by
+    have := inv.n.valid; rw [heq] at this; simpa using this
+  have hnorem : ∀ o ∈ opj :: rest, (reqOf c i).key ∉ o.rems := by
+    intro o ho hκ
+    obtain ⟨r, hra, hu, he⟩ := inv.n.remsSeen o (by rw [heq]; exact List.mem_append_right _ ho) _ hκ
+    have : i = r := KeysOK_inj hk hia hra he
+    subst this
+    exact (Once_nodup inv.q.once).2.2.1 _ hu (List.mem_map.2 ⟨i, hi, rfl⟩)
+  have hend : (reqOf c i).s.toNat + (reqOf c i).len ≤ total pre + total (opj :: rest) := by
+    have := inv.tot; rw [heq, total_append] at this; omega
+  have hdel := delivered_exact c.B c.L pre rest [] opj (reqOf c i) hv hr hnorem hend
+  have he0 : pre ++ (opj :: rest) ++ [] = J.eops := by rw [heq]; simp
+  rw [he0] at hdel
+  have hside_i := hside i hia
+  refine ⟨_, hdel, rfl, rfl, epoch_length c inv _ hacq, ?_, ?_⟩
+  · intro j hj
+    rw [epoch_view c inv _ hacq (c.P + j) (by rw [hlv]; omega)]
+    exact inv.q.emb.kept i hi j hj _ (by omega)
+  · intro j hj hjL
+    rw [epoch_view c inv _ hacq (c.P + j) (by rw [hlv]; exact hjL)]
+    have hlen : (reqOf c i).s.toNat + (c.P + j) < (J.tl ++ Queue.rest J.q).length := by
+      have := inv.acq; simp only [List.length_append]; omega
+    rcases inv.q.emb.after i hi ((reqOf c i).s.toNat + (c.P + j)) (by omega) hlen with h | h
+    · exact Or.inl h
+    · obtain ⟨i', hi', j', h1, h2, h3, h4⟩ := h
+      exact Or.inr ⟨i', hi', by omega, j', h1, by omega, h4⟩
+
+/-- **End to end over the concrete queue model, cancelled trial (histories with pauses).**
+A notified trial that the queue has cancelled (`removed` log) never yields an epoch — whether its
+notifications have reached the extractor yet or not. -/
+theorem e2e_composed_cancelled_partial (c : Cfg) (evs : List Ev) (q0 : QState) (J : JState)
+    (hstart : Start q0) (hrun : jrun c evs (JState.init c q0) = .ok J) (henc : EncInj c)
+    (hreuse : NoReuse J.q.added) (hside : SideOK c J.q.added)
+    (i : Info) (hi : i ∈ J.q.added) (hc : i.uid ∈ J.q.removed) :
+    (deliveries c.B J.eops (reqOf c i).key).flatten = [] := by
+  have hk := keysOK_of henc hreuse
+  have inv := JInv_run c evs (JInv_init c q0 hstart) hrun (fun _ => hside) hk
+  rcases inv.n.canc i hi hc with hp | hs
+  · -- the removal is still pending: the stream has not reached the epoch's last sample
+    obtain ⟨_, _, hlt⟩ := inv.n.remsPend i hp
+    by_cases hm : reqOf c i ∈ allReqs J.eops
+    · obtain ⟨pre, op, rest, heq, hr⟩ := ReqSeen_of_mem hm
+      have hv := inv.n.valid
+      rw [heq] at hv ⊢
+      apply unreached_never_delivered c.B c.L pre rest op (reqOf c i) hv hr
+      rw [← heq, inv.tot]; exact hlt
+    · apply never_requested_silent c.B c.L J.eops _ inv.n.valid
+      intro r hr he
+      have hr' : r ∈ J.q.added.map (reqOf c) := by rw [← inv.n.reqs]; exact List.mem_append_left _ hr
+      obtain ⟨i', hi', rfl⟩ := List.mem_map.1 hr'
+      have : i' = i := KeysOK_inj hk hi' hi he
+      subst this
+      exact hm hr
+  · -- request and removal were both seen: the hypotheses of `e2e_cancelled`
+    obtain ⟨pre0, seg, opi, post, o0, tl, heq, hseg, h1, h2, h3⟩ := hs
+    have hv := inv.n.valid
+    rw [heq] at hv ⊢
+    exact e2e_cancelled c.B c.L pre0 seg post opi ⟨reqOf c i, wave i.key 0 i.len⟩ hv
+      ⟨o0, tl, hseg, h1⟩ h2 h3
+
+/-- a history without `pause(m)` (pause(), resume(), resume(m) are allowed) -/
+def NoPause (evs : List Ev) : Prop := ∀ ev ∈ evs, isPause ev = false
+
+/-- **End to end over the concrete queue model, histories without pause — full.**
+Every notified trial whose notification has been handed to the extractor and whose epoch the
+acquired stream has reached yields exactly one epoch, and after the `P` pre-stimulus samples that
+epoch is the stimulus waveform followed by zeros — under the property's own side conditions for
+that trial: the epoch covers the stimulus (`len + P ≤ L`) and ends before the next trial
+(`L − P ≤ len + delay`).  No hypothesis on the keys: starts increase strictly.  The hypotheses of
+`e2e_kept` (`Valid`, `hr`, `hnorem`, `hend`, `Embedded`) are all discharged from the run. -/
+theorem e2e_composed_nopause (c : Cfg) (evs : List Ev) (q0 : QState) (J : JState)
+    (hstart : Start q0) (hrun : jrun c evs (JState.init c q0) = .ok J) (henc : EncInj c)
+    (hnp : NoPause evs) (i : Info) (hi : i ∈ J.q.added) (hseen : Note.add i ∉ J.pend)
+    (hcover : i.len + c.P ≤ c.L) (hnext : c.L ≤ c.P + i.len + i.delay.toNat)
+    (hreached : (c.K0 : Int) + i.k - (c.P : Int) + (c.L : Int) ≤ (J.acq : Int)) :
+    J.q.removed = [] ∧
+    ∃ e : Extract.Epoch Cell, (deliveries c.B J.eops (reqOf c i).key).flatten = [e] ∧
+      e.req = reqOf c i ∧ e.missed = false ∧
+      e.data.drop c.P = wave i.key 0 i.len ++ List.replicate (c.L - c.P - i.len) Cell.Z := by
+  obtain ⟨inv, np⟩ := JNP_run c evs henc (JInv_init c q0 hstart) (NPInv_init c q0 hstart) hnp hrun
+  have hk : KeysOK c J.q.added := KeysOK_of_sorted c _ henc (np.all ▸ inv.q.sorted)
+  have hig : i ∈ J.q.generated := by rw [np.all]; exact hi
+  obtain ⟨pre, opj, rest, heq, hr, hs0⟩ := locate c inv hk i hi hseen
+  have hsv : (reqOf c i).s = (c.K0 : Int) + i.k - (c.P : Int) := rfl
+  have hlv : (reqOf c i).len = c.L := rfl
+  have hacq : (reqOf c i).s.toNat + (reqOf c i).len ≤ J.acq := by rw [hlv]; omega
+  have he0 : pre ++ (opj :: rest) ++ [] = J.eops := by rw [heq]; simp
+  have hv : Valid c.B c.L (pre ++ (opj :: rest) ++ []) := by rw [he0]; exact inv.n.valid
+  have hnorem : ∀ o ∈ opj :: rest, (reqOf c i).key ∉ o.rems := by
+    intro o ho hκ
+    obtain ⟨r, _, hu, _⟩ := inv.n.remsSeen o (by rw [heq]; exact List.mem_append_right _ ho) _ hκ
+    rw [np.norem] at hu; cases hu
+  have hend : (reqOf c i).s.toNat + (reqOf c i).len ≤ total pre + total (opj :: rest) := by
+    have := inv.tot; rw [heq, total_append] at this; omega
+  have hwl : (wave i.key 0 i.len).length = i.len := by simp [wave]
+  have hemb : Embedded Cell.Z (streamOf (pre ++ (opj :: rest) ++ [])) c.P ⟨reqOf c i, wave i.key 0 i.len⟩ := by
+    rw [he0]
+    unfold Embedded
+    simp only [hlv, hwl]
+    have hacq' := inv.acq
+    have hSlen : (streamOf J.eops).length = J.acq := by rw [inv.stream, List.length_take]; omega
+    have hview : ∀ y, y < c.L - c.P →
+        (slice (streamOf J.eops) ((reqOf c i).s.toNat + c.P) (c.L - c.P))[y]? =
+          (J.tl ++ Queue.rest J.q)[(reqOf c i).s.toNat + c.P + y]? := by
+      intro y hy
+      rw [slice_getElem? _ _ _ _ hy, inv.stream, List.getElem?_take_of_lt (by omega),
+        List.getElem?_append_left (by omega)]
+    apply List.ext_getElem?
+    intro x
+    by_cases hx : x < c.L - c.P
+    · rw [hview x hx]
+      by_cases hxl : x < i.len
+      · rw [List.getElem?_append_left (l₁ := wave i.key 0 i.len) (by rw [hwl]; exact hxl)]
+        rw [inv.q.emb.kept i hig x hxl _ (by omega)]
+        simpa using (wave_getElem? i.key 0 i.len x hxl).symm
+      · rw [List.getElem?_append_right (l₁ := wave i.key 0 i.len) (by rw [hwl]; omega), hwl]
+        rw [np.gap.gap i hig _ (by omega) (by omega)]
+        rw [List.getElem?_replicate, if_pos (by omega)]
+    · have h1 : (slice (streamOf J.eops) ((reqOf c i).s.toNat + c.P) (c.L - c.P)).length = c.L - c.P :=
+        slice_length _ _ _ (by omega)
+      rw [List.getElem?_eq_none (by omega), List.getElem?_eq_none]
+      simp only [List.length_append, hwl, List.length_replicate]; omega
+  obtain ⟨e, h1, h2, h3, h4⟩ := e2e_kept Cell.Z c.B c.L c.P pre rest [] opj
+    ⟨reqOf c i, wave i.key 0 i.len⟩ hv hr hnorem hend hemb
+  rw [he0] at h1
+  simp only [hlv, hwl] at h4
+  exact ⟨np.norem, e, h1, h2, h3, h4⟩
+
+/-- **The code's own schedule is admissible.**  After any history in which every acquisition call
+drained the notification FIFO (what `extract_epochs` does with its two deques), the next draining
+call — of any size within what has been played — is neither a `lateRequest` nor a `lateRemoval`,
+provided the look-back buffer covers the pre-stimulus time (`P ≤ B`) and no pre-stimulus window
+starts before the acquisition (`P ≤ K0 + k`): notifications are issued at generation time, hence
+before the corresponding samples are acquired (C05 `visible_of_recent`). -/
+theorem deque_schedule_admissible (c : Cfg) (evs : List Ev) (q0 : QState) (J : JState)
+    (hstart : Start q0) (hrun : jrun c evs (JState.init c q0) = .ok J) (henc : EncInj c)
+    (hreuse : NoReuse J.q.added) (hside : SideOK c J.q.added)
+    (hdr : drains c evs (JState.init c q0) = true) (hPB : c.P ≤ c.B)
+    (hpre : ∀ i ∈ J.q.added, (c.P : Int) ≤ (c.K0 : Int) + i.k)
+    (n : Nat) (complete : Bool) (hn : J.acq + n ≤ J.tl.length) :
+    ∃ J', jstep c J (.acq n J.pend.length complete) = .ok J' := by
+  have hk := keysOK_of henc hreuse
+  have inv := JInv_run c evs (JInv_init c q0 hstart) hrun (fun _ => hside) hk
+  have d := DInv_run c evs (JInv_init c q0 hstart) (by intro i hi; simp [JState.init] at hi) hdr hrun hside hk
+  exact deque_step_ok c inv d hPB (fun i hi => hpre i (inv.n.addsPend i hi)) n _ complete hn (Nat.le_refl _)
+
+/-! ### Non-vacuity: a concrete joint history (FIFO queue, one 3-sample stimulus × 3, delay 2;
+acquisition starts 2 samples early, 1 pre-stimulus sample, epochs of 5, look-back 4):
+generate 8, acquire 6, pause at queue sample 6 (cancels the trial at 5, keeps the one at 0),
+3 samples of silence, resume, generate 10, acquire 15. -/
+
+def zz (k : Int) : Nat := if 0 ≤ k then 2 * k.toNat else 2 * (-k).toNat + 1
+
+def exC : Cfg := { K0 := 2, P := 1, L := 5, B := 4, enc := fun k key => Nat.pair (zz k) key }
+
+theorem exC_inj : EncInj exC := by
+  intro a b a' b' h
+  obtain ⟨h1, h2⟩ := Nat.pair_eq_pair.1 h
+  refine ⟨?_, h2⟩
+  unfold zz at h1
+  split at h1 <;> split at h1 <;> omega
+
+def exQ : QState := (append { kind := .fifo } ⟨3, false, 3, 3, [2], 0, 3⟩).1
+
+theorem exQ_start : Start exQ := by
+  refine ⟨?_, rfl, rfl, rfl, rfl, rfl⟩
+  intro i e h
+  simp only [exQ, append, List.nil_append] at h
+  match i, h with
+  | 0, h => simp at h; subst h; decide
+  | n + 1, h => simp at h
+
+def exEvs : List Ev :=
+  [.q (.pop 8), .acq 6 5 false, .q (.pause (some 6)), .q (.pop 3), .q (.resume none), .q (.pop 10),
+   .acq 15 9 true]
+
+def exJ : JState :=
+  match jrun exC exEvs (JState.init exC exQ) with
+  | .ok J => J
+  | .error _ => JState.init exC exQ
+
+theorem exRun : jrun exC exEvs (JState.init exC exQ) = .ok exJ := by rfl
+
+/-- the played timeline: the cancelled trial's first sample survives at position 7, then silence,
+then the re-presented trial at 11 -/
+example : exJ.tl = [.Z, .Z, .W 0 0, .W 0 1, .W 0 2, .Z, .Z, .W 0 0, .Z, .Z, .Z, .W 0 0, .W 0 1, .W 0 2,
+    .Z, .Z, .W 0 0, .W 0 1, .W 0 2, .Z, .Z] := by decide +kernel
+example : exJ.q.added.map (fun i => (i.uid, i.k)) = [(0, 0), (1, 5), (2, 9), (3, 14)] ∧
+    exJ.q.removed = [1] ∧ exJ.pend = [] ∧ exJ.acq = 21 := by decide +kernel
+
+/-- the kept trial notified at queue sample 9 (after the resume): one epoch, waveform after the
+pre-stimulus sample -/
+example : ∃ e : Extract.Epoch Cell,
+    (deliveries exC.B exJ.eops (reqOf exC ⟨2, 0, 9, 3, 3, 2⟩).key).flatten = [e] ∧
+      ∀ j, j < 3 → e.data[1 + j]? = some (Cell.W 0 j) := by
+  obtain ⟨e, h1, _, _, _, h5, _⟩ := e2e_composed_kept_partial exC exEvs exQ exJ exQ_start exRun exC_inj
+    (by unfold NoReuse; decide +kernel) (by unfold SideOK; decide +kernel) ⟨2, 0, 9, 3, 3, 2⟩
+    (by decide +kernel) (by decide +kernel) (by decide +kernel)
+  exact ⟨e, h1, h5⟩
+
+/-- the trial notified at queue sample 5 was cancelled by the pause: no epoch -/
+example : (deliveries exC.B exJ.eops (reqOf exC ⟨1, 0, 5, 3, 3, 2⟩).key).flatten = [] :=
+  e2e_composed_cancelled_partial exC exEvs exQ exJ exQ_start exRun exC_inj
+    (by unfold NoReuse; decide +kernel) (by unfold SideOK; decide +kernel) ⟨1, 0, 5, 3, 3, 2⟩
+    (by decide +kernel) (by decide +kernel)
+
+/-- the history above drains the deques in both calls; a further call of 0 samples is admissible -/
+example : ∃ J', jstep exC exJ (.acq 0 exJ.pend.length true) = .ok J' :=
+  deque_schedule_admissible exC exEvs exQ exJ exQ_start exRun exC_inj
+    (by unfold NoReuse; decide +kernel) (by unfold SideOK; decide +kernel) (by rfl) (by decide)
+    (by decide +kernel) 0 true (by decide +kernel)
+
+/-- the request start of the kept trial is what the extractor's float expression yields (identity
+`fl`, fs = 97656.25 Hz, queue start 2 samples, 1 sample pre-stimulus) -/
+example : round (extractorArg (fun x => x) (2 / 97656.25) 97656.25 (1 / 97656.25) 9) =
+    (reqOf exC ⟨2, 0, 9, 3, 3, 2⟩).s :=
+  reqOf_start_roundtrip (fl := fun x => x) (by intro x; simp) (2 / 97656.25) 97656.25 (1 / 97656.25) exC
+    ⟨2, 0, 9, 3, 3, 2⟩ 9 rfl (by norm_num) (by norm_num [exC]) (by norm_num [exC]) (by norm_num [exC])
+
+/-- a history without pause: generate 13 in two requests, acquire in three calls with delayed
+notifications; the second trial (queue sample 5) is recovered as waveform then silence -/
+def exEvs2 : List Ev :=
+  [.q (.pop 6), .acq 4 0 false, .q (.pop 7), .acq 5 1 false, .acq 6 5 true]
+
+def exJ2 : JState :=
+  match jrun exC exEvs2 (JState.init exC exQ) with
+  | .ok J => J
+  | .error _ => JState.init exC exQ
+
+theorem exRun2 : jrun exC exEvs2 (JState.init exC exQ) = .ok exJ2 := by rfl
+
+example : ∃ e : Extract.Epoch Cell,
+    (deliveries exC.B exJ2.eops (reqOf exC ⟨1, 0, 5, 3, 3, 2⟩).key).flatten = [e] ∧
+      e.data.drop 1 = [.W 0 0, .W 0 1, .W 0 2, .Z] := by
+  obtain ⟨_, e, h1, _, _, h4⟩ := e2e_composed_nopause exC exEvs2 exQ exJ2 exQ_start exRun2 exC_inj
+    (by unfold NoPause; decide) ⟨1, 0, 5, 3, 3, 2⟩ (by decide +kernel) (by decide +kernel) (by decide) (by decide)
+    (by decide +kernel)
   exact ⟨e, h1, h4⟩
 
 end Psi.C06
